@@ -328,6 +328,8 @@ type job struct {
 
 var watchdog = 120 * time.Second
 
+var twinLost = map[string]bool{}
+
 func runJob(p *chainx.Prefix, vs []variant, j job, states map[string]bool, mu *sync.Mutex, trans *int64, ruleHits map[string]*int64) (res *outcome) {
 	s := p.NewSession("c04")
 	defer s.Close()
@@ -378,7 +380,11 @@ func runJob(p *chainx.Prefix, vs []variant, j job, states map[string]bool, mu *s
 			}
 			if !v.unjudge {
 				if refAccepts && ic != "ok" {
-					out = &outcome{v.name + "/valid-block-refused", fmt.Sprintf("state %s: implementation answered %q for a block the rules accept", j.st.name, impl), s.Trace}
+					// C04 is one-directional ("becomes part of the active chain only if …"):
+					// a valid block that is not connected is recorded, not judged (C06 judges it)
+					mu.Lock()
+					twinLost[j.st.name+"/"+v.name+": "+impl] = true
+					mu.Unlock()
 					return
 				}
 				if !refAccepts && ic == "ok" {
@@ -563,6 +569,7 @@ func main() {
 		"variants":                      len(vs),
 		"rules_exercised":               rh,
 		"subsidy_boundary_checks":       rewardChecks,
+		"valid_blocks_not_connected":    lostList(),
 		"traces_validated_against_impl": int(hist),
 		"samples":                       samples.L,
 		"exhaustive":                    true,
@@ -573,4 +580,13 @@ func main() {
 		"BIP30 is not in the property's rule list and is not judged",
 		"height 210000 is not reached through the chain; GetBlockReward is enumerated directly at every halving boundary",
 	})
+}
+
+func lostList() []string {
+	var l []string
+	for k := range twinLost {
+		l = append(l, k)
+	}
+	sort.Strings(l)
+	return l
 }
